@@ -74,7 +74,13 @@ def _case_h1(rng, tier, n, exhaustive_split=None):
                 # ... with an empty path (the resource "/") and a query, which may itself contain a slash
                 req["abs_empty_path"] = True
                 req["query"] = b"hvtag=%d" % tag + rng.choice([b"", b"&x=1", b"&next=/home&y=%2F", b"&a=b/c?d"])
-        if version == "1.1" and len(req["body"]) > 0 and rng.random() < 0.08:
+        if req["method"] != "GET" and rng.random() < 0.06:
+            # the fields of a WebSocket opening on a request that is none (only a GET opens one): an ordinary request, body and all
+            extra = [(b"Connection", rng.choice([b"Upgrade", b"keep-alive, Upgrade"])), (b"Upgrade", b"websocket")] + \
+                    ([(b"Sec-WebSocket-Key", b"dGhlIHNhbXBsZSBub25jZQ=="), (b"Sec-WebSocket-Version", b"13")] if rng.random() < 0.7 else [])
+            req["headers"] = list(req["headers"]) + extra
+            req["ows"] = list(req.get("ows") or []) + [b" "] * len(extra)
+        elif version == "1.1" and len(req["body"]) > 0 and rng.random() < 0.08:
             # an h2c upgrade offer on a request that carries a body is ignored by the server: the request is served as HTTP/1.1, body and all
             extra = [(b"Connection", b"Upgrade, HTTP2-Settings"), (b"Upgrade", b"h2c"), (b"HTTP2-Settings", b"AAMAAABkAAQAAP__")]
             req["headers"] = list(req["headers"]) + extra
